@@ -131,6 +131,9 @@ func NewWorldAccts(names []string, acctsOf func(string) []Acct) *World {
 		}
 	}
 	for _, n := range names {
+		w.forwarder(w.Chains[n]) // the user's forwarding and batching contracts exist from the start
+	}
+	for _, n := range names {
 		w.Commit(n) // abstract height 0: the state right after token set-up; clients are created at this height
 	}
 	// clients and relayers
@@ -363,6 +366,9 @@ func (w *World) Send(s SendSpec) TxResult {
 	}
 	data := packettypes.CrossChainData{DstChain: dstID, TokenAddress: token, Receiver: recv, Amount: big.NewInt(s.Amt),
 		ContractAddress: contractAddr, CallData: cd, CallbackAddress: zeroAddr, FeeOption: 0}
+	if s.Callback {
+		data.CallbackAddress = w.Origin[s.Src] // a contract that does not implement the acknowledgement callback
+	}
 	if cd == nil {
 		data.CallData = []byte{}
 	}
@@ -380,7 +386,34 @@ func (w *World) Send(s SendSpec) TxResult {
 	return r
 }
 
-// forwarder: a contract of the user that relays its call data to the endpoint contract (deployed on first use)
+// SendTwo: one transaction of the user's batching contract that calls endpoint.crossChainCall twice with the same
+// call-only request, for destination d1 and for destination d2.  The batching contract is deployed with the world
+// (forwarder), so that a failing SendTwo changes nothing.
+func (w *World) SendTwo(src, d1, d2, call string) TxResult {
+	c := w.Chains[src]
+	user := c.Accts[AcctUser]
+	payload := func(dst string) []byte {
+		dstID := w.ID[dst]
+		if dstID == "" {
+			dstID = dst
+		}
+		contractAddr, cd := w.callData(src, dst, call)
+		data := packettypes.CrossChainData{DstChain: dstID, TokenAddress: zeroAddr, Receiver: "", Amount: big.NewInt(0),
+			ContractAddress: contractAddr, CallData: cd, CallbackAddress: zeroAddr, FeeOption: 0}
+		return mustPack(endpointABI, "crossChainCall", data, packettypes.Fee{TokenAddress: w.Origin[src], Amount: big.NewInt(0)})
+	}
+	w.forwarder(c)
+	to := w.Fwd["double/"+c.ChainID]
+	p1, p2 := payload(d1), payload(d2)
+	if len(p1) != len(p2) {
+		panic("SendTwo: the two requests differ in length")
+	}
+	r := c.DeliverEth(user, addrp(to), nil, append(append([]byte{}, p1...), p2...))
+	w.harvest(src, r)
+	return r
+}
+
+// forwarder: a contract of the user that relays its call data to the endpoint contract (deployed with the world)
 func (w *World) forwarder(c *Chain) common.Address {
 	if a, ok := w.Fwd[c.ChainID]; ok {
 		return a
@@ -392,6 +425,11 @@ func (w *World) forwarder(c *Chain) common.Address {
 		panic("deploy forwarder: " + r.Log + r.VMError)
 	}
 	w.Fwd[c.ChainID] = addr
+	nonce = c.App.EvmKeeper.GetNonce(c.Ctx(), user.Eth)
+	if r := c.DeliverEth(user, nil, nil, proxyCode("double", endpAddr)); !r.OK() {
+		panic("deploy batching contract: " + r.Log + r.VMError)
+	}
+	w.Fwd["double/"+c.ChainID] = crypto.CreateAddress(user.Eth, nonce)
 	return addr
 }
 
